@@ -50,6 +50,8 @@ SPECIAL_VALID = [
     "v, (((1,),),)", "v, [[[]]]", "v, S { a: S { a: S { a: 1 } } }", "v, #(#(#(1)))", "v, #{ 1: #{ 2: #{ 3: 4 } } }",
     "f(a, b), x", "a.b.c, 1", "&v[..], [1, 2]", "v.await, 1", "if a { b } else { c }, 1", "match x { _ => 1 }, 1",
     "v, Some < [ [ self ] [  ] { 0.1 .. <= } ] >", "v, Vec::<[u8 9]>::new()", "v, m::S::<(a b)> { x: 1 }", "v, E::<[T; 3 4]>::V(1)",
+    "v, =~ #[a] r\"x\"", "v, =~ #[cfg(any())] \"a\"", "v, S { f: =~ #[a] \"x\", .. }", "v, == #[a] 1", "v, #[a] 1", "v, #[a] \"s\"", "v, #{ #[a] \"k\": 1 }",
+    "v, S { f.get(#[a] 1): 2, .. }", "v, #[a] 1..2", "v, |cl_x| #[a] true",
     "v, S { a: 4294967294 }", "v, Some(0: 1)", "v, E::V(0.f: 1, 1: 2)", "v, (0.0: 1)",
 ]
 # tuple indices at and above u32::MAX (syn::Index::from asserts index < u32::MAX)
@@ -61,6 +63,9 @@ BIG_INDEX = [
     "v, S { a.4294967294: 1, .. }", "v, S { 0xFFFFFFFF: 1 }", "v, S { a.0xFFFFFFFF: 1, .. }",
 ]
 
+FRAGMENTS = [["::", "<", "u64", ">"], ["::", "<", "String", ",", "3", ">"], ["as", "u8"], [("(", [], ")")], [("[", ["0"], "]")],
+             [".", "await"], ["#", ("[", ["a"], "]")], ["'a", ":"], [":", "u8"], ["-", ">", "T"], ["::", "new"], ["!", ("(", [], ")")],
+             [".", "0"], ["where", "T", ":"], ["if", "true"], ["@", "_"], ["&", "mut"], ["dyn", "T"], ["=", "1"]]
 IDENTS = ["a", "S", "Some", "_", "move", "await", "true", "self", "x"]
 LITS = ["1", "0", "1.5", "0.1", "\"s\"", "'c'", "1e3", "7u8"]
 PUNCTS = [",", ":", "::", ".", "..", "..=", "=", "==", "=~", "<", "<=", ">", ">=", "!=", "!", "*", "#", "|", "&", "-", "~", "?", "'a", "=>", "->", "@", ";", "+"]
@@ -161,6 +166,13 @@ def corpus(rng, tier):
                 t = corrupt._copy(tree)
                 corrupt._at(t, path).insert(i, ft)
                 out.append((corrupt.render(t), "edit:insert", None))
+            # foreign FRAGMENTS: short token sequences that are well formed somewhere in Rust (generic arguments, casts,
+            # calls, attributes, labels, type ascriptions) but have no place where they land
+            for frag in FRAGMENTS:
+                t = corrupt._copy(tree)
+                lst = corrupt._at(t, path)
+                lst[i:i] = frag
+                out.append((corrupt.render(t), "edit:insert-fragment", None))
     trunc = rng.sample(valid, min(len(valid), 25 if quick else 400))
     for text, node, lay in trunc:
         try:
